@@ -1,4 +1,7 @@
 //! Shared generators (proptest strategies).
 pub mod faults;
+pub mod mutate;
 pub mod payload;
+pub mod pinput;
+pub mod smlfile;
 pub mod stream;
